@@ -20,7 +20,10 @@ RULE = ("rooted graphs (node = system/name/version-type/version + error list; ed
         "NodeError.Compare return 0 only for identical values, are reflexive and sign-antisymmetric (all colliding pairs "
         "and all error pairs of a node, plus random pairs). Errors reach a node through AddError (even nodes) or by filling "
         "the exported slice (odd nodes). "
-        "Exhaustive tier (thorough), requirement empty, every labeling of every node; labels {a,b} x {1,2} in E1-E4: "
+        "The quick tier also runs the exhaustive space E1. One graph in twenty is a star: a node with 13-30 children (the "
+        "neighbour sort of canonBFS leaves the insertion-sort path) with no duplicate, one pair of equal children, or a "
+        "child reached by two parallel edges; in npm-like graphs a duplicated version gets the same 2-3 errors on both "
+        "copies with probability 0.2. Exhaustive tier (thorough), requirement empty, every labeling of every node; labels {a,b} x {1,2} in E1-E4: "
         "E1 n=1,2,3 with every subset of the n*n ordered pairs (self loops included); "
         "E2 n=4 with every subset of the 12 ordered pairs without self loops; "
         "E3 n=5 where every non-root node has exactly one incoming edge from any other node (256 shapes); "
@@ -247,6 +250,30 @@ def gen_npm_like(rng, n, names, vers, p_err, p_extra, root_dupe, alpha=None):
         kids[len(nodes) - 1] = set()
         edges.append([parent, len(nodes) - 1, rng.choice(REQS), rng.choice(TYPES)])
     n = len(nodes)
+    if n > 2 and rng.random() < 0.2:
+        # two equal nodes that both carry the same 2-3 errors (in different orders): they are duplicates only
+        # if the errors are sorted before the nodes are compared
+        parent = {e[1]: e[0] for e in edges}
+        by = {}
+        for i in range(1, n):
+            by.setdefault(tuple(nodes[i][:4]), []).append(i)
+        grp = [v for v in by.values() if len(v) >= 2]
+        if not grp:
+            i, j = rng.sample(range(1, n), 2)
+            if parent[i] != parent[j] and parent[j] != i and parent[i] != j:
+                nodes[j] = nodes[i][:4] + [[]]
+                grp = [[i, j]]
+        if grp:
+            i, j = rng.sample(rng.choice(grp), 2)
+            pool = [mk_err(nm, v, t) for nm in ("x", "y", "X") for v in ("1", "^2") for t in ("not found", "e")]
+            errs = rng.sample(pool, rng.choice([2, 3]))
+            key = node_key(nodes[i][:4] + [errs])
+            sib = lambda a: [c for c, p in parent.items() if p == parent[a] and c not in (i, j)]
+            if parent[i] != parent[j] and all(node_key(nodes[c]) != key for c in sib(i) + sib(j)):
+                nodes[i] = nodes[i][:4] + [[list(e) for e in errs]]
+                errs2 = [list(e) for e in errs]
+                rng.shuffle(errs2)
+                nodes[j] = nodes[j][:4] + [errs2]
     # extra edges to already placed nodes: cycles, self loops, parallel typed edges
     for _ in range(int(p_extra * n)):
         f, t = rng.randrange(n), rng.randrange(n)
@@ -256,6 +283,45 @@ def gen_npm_like(rng, n, names, vers, p_err, p_extra, root_dupe, alpha=None):
         nodes[j] = nodes[0][:4] + [[list(e) for e in nodes[0][4]]]
     rng.shuffle(edges)
     return (nodes, edges, "")
+
+
+def gen_star(rng):
+    """one node with 13..30 children (the sort of the unlabelled neighbours in canonBFS leaves the insertion-sort
+    path), among them no duplicated pair, one pair of equal nodes, or one child reached by two parallel edges.
+    A second copy of one child elsewhere makes the breadth-first labelling run."""
+    k = rng.randrange(13, 31)
+    pool = [(chr(97 + i % 8) + chr(97 + i // 8), v) for i in range(24) for v in ("1", "2")]
+    rng.shuffle(pool)
+    hub_is_root = rng.random() < 0.5
+    nodes = [mk_node("root", "1")]
+    edges = []
+    hub = 0
+    if not hub_is_root:
+        nodes.append(mk_node("hub", "1"))
+        edges.append([0, 1, "*", []])
+        hub = 1
+    kids = []
+    for nm, v in pool[:k]:
+        nodes.append(mk_node(nm, v, gen_errors(rng, 0.1)))
+        kids.append(len(nodes) - 1)
+        edges.append([hub, kids[-1], rng.choice(REQS), rng.choice(TYPES)])
+    mode = rng.choice(["none", "none", "pair", "parallel"])
+    if mode == "pair":
+        a, b = rng.sample(kids, 2)
+        nodes[b] = nodes[a][:4] + [[list(e) for e in nodes[a][4]]]
+    elif mode == "parallel":
+        a = rng.choice(kids)
+        edges.append([hub, a, rng.choice(REQS), rng.choice(TYPES)])
+    # a copy of one child below another child: equal nodes exist, so Canon takes the breadth-first path
+    if rng.random() < 0.8 and len(nodes) < 39:
+        a, b = rng.sample(kids, 2)
+        nodes.append(nodes[a][:4] + [[list(e) for e in nodes[a][4]]])
+        edges.append([b, len(nodes) - 1, "^1", []])
+        if rng.random() < 0.5 and len(nodes) < 40:
+            nodes.append(mk_node("leaf", "1"))
+            edges.append([len(nodes) - 2, len(nodes) - 1, "*", []])
+    rng.shuffle(edges)
+    return "star_" + mode, (nodes, edges, "")
 
 
 def gen_distinct(rng, n, p_err, density):
@@ -276,6 +342,8 @@ def gen_distinct(rng, n, p_err, density):
 
 
 def gen_graph(rng):
+    if rng.random() < 0.05:
+        return gen_star(rng)
     if rng.random() < 0.25:
         # all three systems, names that collide under normalisation, errors that differ only in such names
         alpha = Collide(rng)
@@ -803,6 +871,8 @@ def run_checks(ctx):
     random_tier(ctx, orc, fixed, cutoff, ctx.scale(3000, 50000), 4)
     if ctx.thorough():
         exhaustive_tier(ctx, orc, fixed)
+    else:
+        exhaustive_tier(ctx, orc, fixed, only="E1")
 
 
 def oracle_only(ctx):
@@ -907,12 +977,15 @@ def exhaustive_errors(ctx, orc):
     ctx.extra["exhaustive_errors"] = {"cases": len(cases), "classes": len(groups)}
 
 
-def exhaustive_tier(ctx, orc, fixed):
+def exhaustive_tier(ctx, orc, fixed, only=None):
     total = 0
     classes_total = 0
     desc = []
-    exhaustive_errors(ctx, orc)
+    if only is None:
+        exhaustive_errors(ctx, orc)
     for name, n, labels, cfgs in ex_spaces():
+        if only is not None and not name.startswith(only):
+            continue
         node_txt = ['(%d "%s" 1 "%s" ())' % lv for lv in labels]
         lab_of = {lv: i for i, lv in enumerate(labels)}
         cfg_txt = ["(" + " ".join(sx(list(e)) for e in es) + ")" for es in cfgs]
@@ -1027,5 +1100,6 @@ def exhaustive_tier(ctx, orc, fixed):
                                  root_dupe=has_root_dupe(h), variant=a)
         ctx.count("exhaustive:idempotence_checked", len(outs))
     ctx.extra["exhaustive_small_scope"] = True
+    ctx.extra["exhaustive_scope"] = "all spaces (E1-E6)" if only is None else "quick tier: %s only (n <= 3, all edge subsets, all renumberings)" % only
     ctx.extra["exhaustive_space"] = {"labels": ["%s@%s" % lv[1:] for lv in EX_LABELS], "spaces": desc, "graphs": total,
                                      "isomorphism_classes": classes_total}
